@@ -34,6 +34,7 @@ _BIN = {ast.Add: operator.add, ast.Sub: operator.sub, ast.Mult: operator.mul, as
 class Evaluator:
     def __init__(self, env: Dict[str, Any], ld: Optional[LocalDefs] = None):
         self.env = dict(env)
+        self.pinned = set(env)  # stand-in values supplied by the rule are never overwritten by assignments
         self.ld = ld
 
     def ev(self, e: ast.AST, depth: int = 0) -> Any:
@@ -149,8 +150,8 @@ def walk(g: CFG, ev: Evaluator, track_assign: bool = True, max_steps: int = 2000
             return "unknown", cur, trace
         if track_assign and cur.kind == "stmt" and isinstance(cur.ast, ast.Assign) and len(cur.ast.targets) == 1 \
                 and isinstance(cur.ast.targets[0], ast.Name):
-            v = ev.ev(cur.ast.value)
-            ev.env[cur.ast.targets[0].id] = v
+            if cur.ast.targets[0].id not in ev.pinned:
+                ev.env[cur.ast.targets[0].id] = ev.ev(cur.ast.value)
         plain = [e for e in succ if not (e.label and e.label[0] == "exc")]
         if not plain:
             return "fallthrough", None, trace
